@@ -1172,3 +1172,7 @@ mod test {
         server.reset();
     }
 }
+
+#[cfg(any(kani, libtw2_verif))]
+#[path = "/verif/kani/net_connection.rs"]
+mod verif_kani;
